@@ -45,6 +45,18 @@ __all__ = ['BaseOperationRecorder', 'TestClientRecorder',
 OpArgsTuple = namedtuple("OpArgsTuple", ["method", "args"])
 
 
+def _decode_lenient(data):
+    """
+    Return the data received from the server as a unicode string for
+    logging and recording purposes. Byte strings are decoded as UTF-8,
+    replacing ill-formed sequences (the data may be invalid or truncated),
+    so that recording never fails because of the data.
+    """
+    if isinstance(data, bytes):
+        return data.decode('utf-8', errors='replace')
+    return data
+
+
 class OpArgs(OpArgsTuple):
     """
     A named tuple representing the name and input arguments of the invocation
@@ -754,10 +766,10 @@ class LogOperationRecorder(BaseOperationRecorder):
             if self.http_detail_level == 'summary':
                 upayload = ""
             elif self.http_maxlen and (len(payload) > self.http_maxlen):
-                upayload = (_ensure_unicode(payload[:self.http_maxlen]) +
+                upayload = (_decode_lenient(payload[:self.http_maxlen]) +
                             '...')
             else:
-                upayload = _ensure_unicode(payload)
+                upayload = _decode_lenient(payload)
             upayload = repr(upayload)
             if upayload.startswith("u'"):
                 upayload = upayload[1:]
@@ -925,7 +937,7 @@ class TestClientRecorder(BaseOperationRecorder):
                             http_response.headers[hdr_name]
             tc_http_response['headers'] = tc_response_headers
             if http_response.payload is not None:
-                data = http_response.payload.decode('utf-8')
+                data = _decode_lenient(http_response.payload)
                 data = data.replace('><', '>\n<').strip()
             else:
                 data = None
